@@ -342,6 +342,14 @@ def _unicode_chunk(args):
         cr = coarse_re.setdefault(code, re.compile(cat.re_string, RE_FLAGS))
         if not cr.fullmatch(c):
             out['coarse'].append(ord(c))
+        if code != cats.UAlphaNumeric.code:
+            e = rexpy.escape(c)
+            try:
+                if not re.fullmatch(e, c, RE_FLAGS):
+                    out['escape'].append(ord(c))
+            except re.error:
+                out['escape'].append(ord(c))
+            continue        # fine_class is only applied to alphanumeric characters
         fc = x.fine_class(c)
         fr = coarse_re.setdefault(('f', fc), re.compile(cats[fc].re_string, RE_FLAGS))
         if not fr.fullmatch(c):
